@@ -103,13 +103,16 @@ def sub_dt(dt, pos):
     return dt
 
 
-def build_dt(tree, fmts):
-    """real datatype from the tree, with the format strings of the case set on its float leaves"""
+def build_dt(tree, fmts, units=None):
+    """real datatype from the tree, with the format strings (and units) of the case set on its float leaves"""
     dt = dtcodec.tree_to_dt(tree)
     for pos, leaf in leaf_paths(tree):
         f = fmts.get(pos_key(pos))
         if f and leaf['t'] in ('double', 'scaled'):
             sub_dt(dt, pos).set_properties(fmtstr=f)
+        u = (units or {}).get(pos_key(pos))
+        if u and leaf['t'] in ('double', 'scaled'):
+            sub_dt(dt, pos).set_properties(unit=u)
     return dt
 
 
@@ -123,7 +126,9 @@ def describe_node(dt):
     """what a `describe` request would answer for a node with one module `m` holding one custom parameter `_par` of this
     datatype (the structure `SecNode.get_descriptive_data` produces), after its JSON round trip"""
     return json.loads(json.dumps({
-        'modules': {'m': {'accessibles': {'_par': {'datainfo': dt.export_datatype(), 'description': 'p', 'readonly': False}},
+        'modules': {'m': {'accessibles': {'_par': {'datainfo': dt.export_datatype(), 'description': 'p', 'readonly': False},
+                                          '_cmd': {'datainfo': {'type': 'command', 'argument': dt.export_datatype(),
+                                                                'result': dt.export_datatype()}, 'description': 'c'}},
                           'description': 'm', 'interface_classes': ['Writable'], 'features': []}},
         'equipment_id': 'c02', 'firmware': 'x', 'description': 'x'}))
 
@@ -137,7 +142,10 @@ class Recorder:
         from frappy.client import SecopClient, NullLogger
         from frappy.protocol.interface import encode_msg_frame
 
+        from frappy.protocol.interface import decode_msg
+        from frappy.errors import make_secop_error
         sent = self.sent = []
+        node_args = self.node_args = []
 
         class Client(SecopClient):
             def connect(self, try_period=0):
@@ -147,7 +155,19 @@ class Recorder:
                 pass
 
             def request(self, action, ident=None, data=None):
-                sent.append(encode_msg_frame(action, ident, data))
+                frame = encode_msg_frame(action, ident, data)
+                sent.append(frame)
+                if action == 'do':
+                    # the node's part of a command that answers its argument: Command.do imports the transported
+                    # argument, Dispatcher._execute_command exports the result; the reply travels as a line
+                    arg = decode_msg(frame)[2]
+                    try:
+                        a = dt.import_value(arg)
+                    except Exception as e:
+                        node_args.append(e)
+                        raise make_secop_error(getattr(e, 'name', 'InternalError'), str(e)) from None
+                    node_args.append(a)
+                    return decode_msg(encode_msg_frame('done', ident, [dt.export_value(a), {}]))
                 return ('changed', ident, [data, {}])
 
         c = self.client = Client('recorder', NullLogger)
@@ -332,10 +352,10 @@ def _reject_constant(name):
     raise ValueError('non-strict JSON constant ' + name)
 
 
-def run_impl(tree, fmts, v):
+def run_impl(tree, fmts, v, units=None):
     """every call of one case; returns (impl outcomes, fmt table, library test failures)"""
     from frappy.protocol.interface import encode_msg_frame, decode_msg
-    dt = build_dt(tree, fmts)
+    dt = build_dt(tree, fmts, units)
     impl = dict.fromkeys(KEYS)
     libfail = []
     stats = {}
@@ -426,6 +446,38 @@ def run_impl(tree, fmts, v):
             impl['vsent'], vsent = _out(send_value, enc_json)
             if 'ok' in impl['vsent']:
                 impl['vnode'], _ = _out(lambda: dt.import_value(vsent), dtcodec.py_to_json)
+
+            # ---- the command call: execCommand with the cached value as argument, the node's command answers its argument
+            def call():
+                n = len(rec.sent)
+                del rec.node_args[:]
+                try:
+                    rec.result = ('ok', rec.client.execCommand('m', 'cmd', item.value)[0])
+                except Exception as e:
+                    if len(rec.sent) == n:
+                        raise                     # failed before anything was sent (export_value of the argument)
+                    rec.result = ('err', e)
+                if len(rec.sent) != n + 1:
+                    raise RuntimeError('no frame')
+                action, ident, sent = decode_msg(rec.sent[-1])
+                if (action, ident) != ('do', 'm:_cmd'):
+                    raise RuntimeError('unexpected frame')
+                return sent
+            impl['xsent'], xsent = _out(call, enc_json)
+            if 'ok' in impl['xsent']:
+                def node_arg():
+                    a = rec.node_args[-1]
+                    if isinstance(a, Exception):
+                        raise a
+                    return a
+
+                def cmd_result():
+                    if rec.result[0] == 'err':
+                        raise rec.result[1]
+                    return rec.result[1]
+                impl['xnode'], _ = _out(node_arg, dtcodec.py_to_json)
+                if 'ok' in impl['xnode']:
+                    impl['xres'], _ = _out(cmd_result, dtcodec.py_to_json)
     # ---- the library leaves: the fmt read-back table, and the laws tested on the leaves drawn ----
     table, seen = [], set()
     leafdts = {}
@@ -488,7 +540,7 @@ LAST_STATS = {}
 
 def eval_case(case):
     v = dtcodec.json_to_py(case['v'])
-    impl, table, libfail, stats = run_impl(case['tree'], case.get('fmts', {}), v)
+    impl, table, libfail, stats = run_impl(case['tree'], case.get('fmts', {}), v, case.get('units'))
     LAST_STATS.clear()
     LAST_STATS.update(stats)
     req = {'p': 'C02', 'k': 'case', 'dt': case['tree'], 'v': case['v'], 'fmt': table, 'impl': impl}
@@ -505,10 +557,10 @@ def canon_out(o):
 
 
 KEYS = ['exp', 'node', 'client', 'cdt', 'text', 'back', 'again', 'cval', 'ctext', 'cback', 'cagain', 'sent', 'cnode', 'vsent',
-        'vnode']
+        'vnode', 'xsent', 'xnode', 'xres']
 
 
-CLIENT_KEYS = ['client', 'cdt', 'cval', 'ctext', 'cback', 'cagain', 'sent', 'cnode', 'vsent', 'vnode']
+CLIENT_KEYS = ['client', 'cdt', 'cval', 'ctext', 'cback', 'cagain', 'sent', 'cnode', 'vsent', 'vnode', 'xsent', 'xnode', 'xres']
 
 
 def obs(d):
@@ -551,6 +603,16 @@ def blank_names(rng, tree):
     if t == 'struct':
         return dict(tree, members=[[k, blank_names(rng, m)] for k, m in tree['members']])
     return tree
+
+
+UNITS = ['K', '%', 'mm/s', 'T', 'mbar', 'm^2', '1', 'deg C', '\u03a9', '\u2126', '\u00b5m', "'", '"', ', 5', '] #', '$']
+
+
+def gen_units(rng, tree):
+    """units for some of the float leaves (the text form for input - to_string, str(CacheItem) - shows no unit, whatever
+    the unit is: format_value(value, unit=False))"""
+    return {pos_key(pos): rng.choice(UNITS) for pos, leaf in leaf_paths(tree)
+            if leaf['t'] in ('double', 'scaled') and rng.random() < 0.4}
 
 
 def gen_fmts(rng, tree):
@@ -951,21 +1013,21 @@ def _sub_fmts(fmts, i):
 
 
 def sub_cases(case):
-    tree, v, fmts = case['tree'], case['v'], case.get('fmts', {})
+    tree, v, fmts, units = case['tree'], case['v'], case.get('fmts', {}), case.get('units') or {}
     t = tree['t']
     out = []
     if t == 'array' and isinstance(v, dict) and 't' in v:
         for x in v['t']:
-            out.append({'tree': tree['elem'], 'v': x, 'fmts': _sub_fmts(fmts, 0)})
+            out.append({'tree': tree['elem'], 'v': x, 'fmts': _sub_fmts(fmts, 0), 'units': _sub_fmts(units, 0)})
     elif t == 'tuple' and isinstance(v, dict) and 't' in v:
         for i, (e, x) in enumerate(zip(tree['elems'], v['t'])):
-            out.append({'tree': e, 'v': x, 'fmts': _sub_fmts(fmts, i)})
+            out.append({'tree': e, 'v': x, 'fmts': _sub_fmts(fmts, i), 'units': _sub_fmts(units, i)})
     elif t == 'struct' and isinstance(v, dict) and 'd' in v:
         names = [k for k, _ in tree['members']]
         md = dict((k, m) for k, m in tree['members'])
         for k, x in v['d']:
             if k in md:
-                out.append({'tree': md[k], 'v': x, 'fmts': _sub_fmts(fmts, names.index(k))})
+                out.append({'tree': md[k], 'v': x, 'fmts': _sub_fmts(fmts, names.index(k)), 'units': _sub_fmts(units, names.index(k))})
     return out
 
 
@@ -1074,7 +1136,7 @@ def signature(clause, case):
 
 
 def describe(case, impl):
-    dt = build_dt(case['tree'], case.get('fmts', {}))
+    dt = build_dt(case['tree'], case.get('fmts', {}), case.get('units'))
     v = dtcodec.json_to_py(case['v'])
 
     def short(a):
@@ -1146,6 +1208,8 @@ def run(ctx):
         for k in set(dtcodec.tree_kinds(tree)):
             res.count('tree.contains=' + k)
         fmts = gen_fmts(rng, tree)
+        units = gen_units(rng, tree)
+        res.count('tree.float-leaf-with-unit', len(units))
         for f in fmts.values():
             res.count('fmtstr=' + (f if f == '%g' else '%.<n>' + f[-1]))
             res.count('fmtstr.digits=' + ('default' if f == '%g' else '0-2' if int(f[2:-1]) <= 2 else '3-9' if int(f[2:-1]) <= 9
@@ -1161,7 +1225,7 @@ def run(ctx):
         for v in values:
             if not dtcodec.encodable(v):
                 continue
-            cases.append(({'tree': tree, 'v': dtcodec.py_to_json(v), 'fmts': fmts}, origin))
+            cases.append(({'tree': tree, 'v': dtcodec.py_to_json(v), 'fmts': fmts, 'units': units}, origin))
 
     CH = 10000
     shrunk = 0
@@ -1217,7 +1281,7 @@ def run(ctx):
                 res.count('precondition.fmt-law-fails(text not judged)')
             if isinstance(impl.get('cdt'), dict) and 'err' in impl['cdt']:
                 res.count('client-datatype-not-rebuilt(client clauses not judged; C03)')
-            for k in ('exp', 'node', 'client', 'back', 'cback', 'sent', 'cnode', 'vsent', 'vnode'):
+            for k in ('exp', 'node', 'client', 'back', 'cback', 'sent', 'cnode', 'vsent', 'vnode', 'xsent', 'xnode', 'xres'):
                 o = impl.get(k)
                 res.count(f'{k}=' + ('none' if o is None else 'ok' if 'ok' in o else 'err:' + o['err']))
             if t != 'bool':
@@ -1263,7 +1327,7 @@ def replay(ctx, rp):
     case = rp['case']
     req, impl, libfail = eval_case(case)
     ans = batch_nl(ctx.driver, [req])[0]
-    dt = build_dt(case['tree'], case.get('fmts', {}))
+    dt = build_dt(case['tree'], case.get('fmts', {}), case.get('units'))
     v = dtcodec.json_to_py(case['v'])
     print('datatype :', repr(dt))
     print('value    :', repr(v))
